@@ -1,5 +1,5 @@
 Require Import QtlVerif.RotateDefs QtlVerif.SrcRotate.
 Require Extraction.
 Require Import ExtrOcamlBasic.
-Extraction "rotate_model.ml" src_shape std_shape shape_eqb step w0 run listing snap_of to_int civil
+Extraction "rotate_model.ml" src_shape std_shape shape_eqb step shown_text WriteMsg w0 run listing snap_of to_int civil
   prop_c05_b prop_c06_b prop_c07_b prop_c09_b.
